@@ -404,6 +404,10 @@ SPECS += srcspecs_mem.SPECS_MEM; HEADER = HEADER.rstrip("\n") + "\n" + srcspecs_
 from .srcspecs_met import SPECS_MET, HEADER_MET      # third extension: calgebra/metrics.py
 SPECS, HEADER = SPECS + SPECS_MET, HEADER + HEADER_MET
 
+from .srcspecs_gcsa import SPECS_GCSA  # noqa: E402  (third extension, tag gcsa: calgebra/gcsa.py)
+SPECS += SPECS_GCSA
+
+
 def regenerate(repo: Path, coq_dir: Path):
     """Rewrite Gen/Source.v if its content changed.  Returns ({name: error}, text)."""
     text, errors = pysrc.translate_all(repo, SPECS, HEADER)
